@@ -40,7 +40,7 @@ def cause_chain(e):
     while e is not None and id(e) not in seen:
         out.append(e)
         seen.add(id(e))
-        e = e.__cause__ if e.__cause__ is not None else e.__context__
+        e = e.__cause__         # "carrying the original cause": the explicit cause chain, not the implicit context
     return out
 
 
@@ -60,11 +60,13 @@ def events_prefix(a, b):
 
 class C12(Prop):
     pid = "C12"
+    quick = {"seeds": 40, "wall_cap": 60, "chunk": 1}
+    thorough = {"seeds": 1800, "wall_cap": 1500, "chunk": 2}
     level = "fault_enumeration"
     rule = ("per seed one short base history [integrate(t_mid)?, integrate(), reset, integrate()] (3-15 recorded steps; every method family incl. implicit "
             "with FD and user Jacobian, splitting, Richardson; both directions; dense on/off; events incl. terminal; callbacks).  The fault-free twin is "
             "run once and the number of rhs / Jacobian / event / callback calls per op is read off; then EVERY crash point is enumerated: one derived "
-            "case per (seam, k) with the k-th call of that seam raising (Boom and KeyboardInterrupt alternate), capped at 160 per base by seeded "
+            "case per (seam, k) with the k-th call of that seam raising (Boom and KeyboardInterrupt alternate), capped at 120 per base by seeded "
             "sub-sampling; the thorough tier adds two- and three-fault sequences (fault, resume, fault, resume).  Each derived case runs the faulted "
             "world and compares it with the twin.  Non-trivial = the fault fired and at least one step was recorded in the whole history; distinct = "
             "distinct canonical scenario JSON; crash phases are classified from the trace and counted")
@@ -72,9 +74,7 @@ class C12(Prop):
                    "status/success after a successful resume are not asserted (the statement is silent)",
                    "final state after resume: bitwise equal to the twin when grids coincide for explicit fixed-step/splitting methods, otherwise within 200*(atol+rtol*|y|)*steps*amplification",
                    "injected exceptions are Exception/KeyboardInterrupt subclasses; NaN from the rhs is not a fault kind"]
-    quick = {"seeds": 48, "wall_cap": 80, "chunk": 1}
-    thorough = {"seeds": 1500, "wall_cap": 1500, "chunk": 2}
-    CAP = 160
+    CAP = 120
 
     def generate(self, seed, tier):
         base = gen.gen_scenario(seed, "C12")
